@@ -260,6 +260,15 @@ def mergeG1 (ops : MatOps M2 M4) : List (G1 M2) → M2 → M2
   | g :: rest, acc => mergeG1 ops rest (ops.mul2 g.m acc)
   | [], acc => acc
 
+/-- what one pass of `for q_i in reorder_qubit_list:` appends for the gates `sel` found on `q_i`
+(`indices`): their product if there are several, the gate itself if there is one, nothing if there
+is none (D3: `elif len(indices) == 1`) -/
+def groupItem (ops : MatOps M2 M4) (q : Nat) (sel : List (G1 M2)) : List (Item M2 M4) :=
+  if sel.length > 1 then [Item.one (mergeG1 ops sel ops.one2) q]
+  else match sel with
+    | [g] => [Item.one g.m q]
+    | _ => []
+
 /-- `for q_i in reorder_qubit_list:` over the remaining `last_part`; returns what is appended to
 `result_4`.  When the qubit list is exhausted whatever is left in `last_part` is dropped (it is
 empty for well-formed lists: every qubit is `< len(qubit_list)`).  With D3 repaired both copies of
@@ -268,11 +277,7 @@ def regroup (ops : MatOps M2 M4) : List Nat → List (G1 M2) → List (Item M2 M
   | [], _ => []
   | q :: qs, lp =>
     if lp.length > 1 then
-      let sel := lp.filter (fun g => g.q == q)
-      (if sel.length > 1 then [Item.one (mergeG1 ops sel ops.one2) q]
-       else match sel with
-         | [g] => [Item.one g.m q]
-         | _ => []) ++ regroup ops qs (lp.filter (fun g => !(g.q == q)))
+      groupItem ops q (lp.filter (fun g => g.q == q)) ++ regroup ops qs (lp.filter (fun g => !(g.q == q)))
     else if lp.length = 1 then lp.map G1.item      -- append last_part[0]; break
     else []                                         -- break
 
